@@ -14,24 +14,24 @@ import (
 // fileContentAPIs: functions that open or read file content. The allowed one is part of the table
 // so that a run which finds none of them (matcher broken) cannot pass.
 var fileContentAPIs = map[string]string{
-	"(*os.Root).Open":      "allowed when the receiver is the parser's root",
-	"(*os.Root).OpenFile":  "root-relative open",
-	"(*os.Root).OpenRoot":  "narrowing the root (no content read)",
-	"os.Open":              "reads outside the root",
-	"os.OpenFile":          "reads outside the root unless write-only",
-	"os.ReadFile":          "reads outside the root",
-	"os.ReadDir":           "lists outside the root",
-	"os.DirFS":             "filesystem view outside the root",
-	"os.OpenRoot":          "a second, unrelated root",
-	"io/fs.ReadFile":       "reads through an fs.FS",
-	"io/fs.ReadDir":        "lists through an fs.FS",
-	"io/ioutil.ReadFile":   "reads outside the root",
-	"io/ioutil.ReadDir":    "lists outside the root",
-	"syscall.Open":         "raw open",
-	"os.Create":            "creates/truncates a file (write)",
-	"os.CreateTemp":        "creates a temp file (write)",
-	"os.Readlink":          "reads a link target",
-	"path/filepath.Walk":   "walks a directory tree",
+	"(*os.Root).Open":       "allowed when the receiver is the parser's root",
+	"(*os.Root).OpenFile":   "root-relative open",
+	"(*os.Root).OpenRoot":   "narrowing the root (no content read)",
+	"os.Open":               "reads outside the root",
+	"os.OpenFile":           "reads outside the root unless write-only",
+	"os.ReadFile":           "reads outside the root",
+	"os.ReadDir":            "lists outside the root",
+	"os.DirFS":              "filesystem view outside the root",
+	"os.OpenRoot":           "a second, unrelated root",
+	"io/fs.ReadFile":        "reads through an fs.FS",
+	"io/fs.ReadDir":         "lists through an fs.FS",
+	"io/ioutil.ReadFile":    "reads outside the root",
+	"io/ioutil.ReadDir":     "lists outside the root",
+	"syscall.Open":          "raw open",
+	"os.Create":             "creates/truncates a file (write)",
+	"os.CreateTemp":         "creates a temp file (write)",
+	"os.Readlink":           "reads a link target",
+	"path/filepath.Walk":    "walks a directory tree",
 	"path/filepath.WalkDir": "walks a directory tree",
 }
 
@@ -100,8 +100,8 @@ func ruleC18Read(p *Prog, r *Result) {
 
 func ruleC18Probe(p *Prog, r *Result) {
 	expect := map[string]string{
-		"bkl.findFile / os.Stat":                                   "existence of <layer>.<ext>",
-		"bkl.globFiles / path/filepath.Glob":                       "$parent wildcard expansion",
+		"bkl.findFile / os.Stat":                                      "existence of <layer>.<ext>",
+		"bkl.globFiles / path/filepath.Glob":                          "$parent wildcard expansion",
 		"bkl.(*file).parentsFromSymlink / path/filepath.EvalSymlinks": "symlinked layer inherits from its target's name",
 	}
 	seen := map[string]bool{}
